@@ -200,6 +200,23 @@ def run(rep, drv):
 		except Exception as e:
 			rep.diff('poisson-vs-pmf', 'raised %s' % err_enum(e), case, oracle=True, theorem=THEOREM)
 
+	H = core.one_argument_histories
+	calls = []
+	pm = [0.1, 0.2, 0.0, 0.3, 0.4]
+	bump = lambda k, v: ([0.4, 0.3, 0.0, 0.2, 0.1] if k == 'demand_pmf' else (v + 2 if k in ('reorder_point', 'order_up_to_level') else v * 1.5 + 1))
+	for kw in H(dict(reorder_point=2, order_up_to_level=9, holding_cost=1, stockout_cost=9, fixed_cost=20, use_poisson=False, demand_hi=4, demand_pmf=pm),
+				['reorder_point', 'order_up_to_level', 'holding_cost', 'stockout_cost', 'fixed_cost', 'demand_pmf'], bump):
+		calls.append(('stockpyl.ss', 's_s_cost_discrete', (), kw))
+	for kw in H(dict(reorder_point=2, order_up_to_level=9, holding_cost=1, stockout_cost=9, fixed_cost=20, use_poisson=True, demand_mean=3.5), ['demand_mean', 'fixed_cost', 'order_up_to_level'], bump):
+		calls.append(('stockpyl.ss', 's_s_cost_discrete', (), kw))
+	for kw in H(dict(holding_cost=1, stockout_cost=9, fixed_cost=20, use_poisson=False, demand_hi=4, demand_pmf=pm), ['holding_cost', 'stockout_cost', 'fixed_cost', 'demand_pmf'], bump):
+		calls.append(('stockpyl.ss', 's_s_discrete_exact', (), kw))
+	for kw in H(dict(holding_cost=1, stockout_cost=9, fixed_cost=20, use_poisson=True, demand_mean=3.5), ['demand_mean', 'stockout_cost'], bump):
+		calls.append(('stockpyl.ss', 's_s_discrete_exact', (), kw))
+	for kw in H(dict(holding_cost=0.18, stockout_cost=0.70, fixed_cost=2.5, demand_mean=50, demand_sd=8), ['holding_cost', 'stockout_cost', 'fixed_cost', 'demand_mean', 'demand_sd']):
+		calls.append(('stockpyl.ss', 's_s_power_approximation', (), kw))
+	core.history_check(rep, 'call-history', calls, theorem=THEOREM)
+
 
 def replay(rep, drv, doc):
 	print('replaying the quick stream; recorded case:', doc['stream'], doc['case'])
